@@ -671,6 +671,10 @@ func addParams(add func(id string, apply func(p *Prog), req ...string)) {
 	val("items.default", "[]string", "items.default: bar2", map[string]any{"items.default": "bar2"})
 	val("items.maximum", "[]int32", "items.maximum: 9", map[string]any{"items.maximum": 9})
 	val("items.minimum", "[]int32", "items.minimum: 2", map[string]any{"items.minimum": 2})
+	val("items.minimum.exclusive", "[]int32", "items.minimum: > 2", map[string]any{"items.minimum": 2, "items.exclusiveMinimum": true})
+	val("items.maximum.exclusive", "[]int32", "items.maximum: < 9", map[string]any{"items.maximum": 9, "items.exclusiveMaximum": true})
+	val("items.min+max.exclusive-min-only", "[]float64", "items.minimum: > 0.5\nitems.maximum: 9.5", map[string]any{"items.minimum": 0.5, "items.exclusiveMinimum": true, "items.maximum": 9.5, "items.exclusiveMaximum": Absent{}})
+	val("items.2.minimum.exclusive", "[][]int64", "items.items.minimum: > 1", map[string]any{"items.items.minimum": 1, "items.items.exclusiveMinimum": true})
 	val("items.2.minItems", "[][]string", "items.minItems: 4", map[string]any{"items.minItems": 4})
 	val("items.2.maxItems", "[][]string", "items.maxItems: 9", map[string]any{"items.maxItems": 9})
 	val("items.2.minLength", "[][]string", "items.items.minLength: 3", map[string]any{"items.items.minLength": 3})
@@ -936,7 +940,14 @@ func addModels(add func(id string, apply func(p *Prog), req ...string)) {
 func addMerge(add func(id string, apply func(p *Prog), req ...string)) {
 	baseInput := func() map[string]any {
 		return map[string]any{"swagger": "2.0", "info": map[string]any{"title": "from input", "version": "0.0.9"},
-			"paths":       map[string]any{"/in": map[string]any{"get": map[string]any{"operationId": "inputOp", "tags": []any{"fromInput"}, "responses": map[string]any{"200": map[string]any{"description": "ok"}}}}},
+			"paths": map[string]any{"/in": map[string]any{"get": map[string]any{"operationId": "inputOp", "tags": []any{"fromInput"}, "responses": map[string]any{"200": map[string]any{"description": "ok"}}}},
+				"/inm": func() map[string]any {
+					pi := map[string]any{}
+					for _, m := range []string{"put", "post", "delete", "patch", "head", "options"} {
+						pi[m] = map[string]any{"operationId": "inputOp" + strings.ToUpper(m[:1]) + m[1:], "responses": map[string]any{"200": map[string]any{"description": "ok"}}}
+					}
+					return pi
+				}()},
 			"definitions": map[string]any{"InputModel": map[string]any{"type": "object", "properties": map[string]any{"x": map[string]any{"type": "string"}}}}}
 	}
 	add("merge.keeps-input", func(p *Prog) {
@@ -955,6 +966,20 @@ func addMerge(add func(id string, apply func(p *Prog), req ...string)) {
 		p.e("merge.params-into-input-op", 9, at(b, "maximum")...)
 		p.e("merge.params-into-input-op", "ok", "paths", "/in", "get", "responses", "200", "description")
 	})
+	for _, m := range []string{"put", "post", "delete", "patch", "head", "options"} {
+		m := m
+		form := "merge.params-into-input-op." + m
+		add(form, func(p *Prog) {
+			p.Input = baseInput()
+			k := p.next()
+			id := "inputOp" + strings.ToUpper(m[:1]) + m[1:]
+			p.decl(fmt.Sprintf("// PInM%d adds a parameter to the %s operation of the input spec.\n//\n// swagger:parameters %s\ntype PInM%d struct {\n\t// in: query\n\t// minimum: 2\n\tMore%s int64 `json:\"more%s\"`\n}\n", k, m, id, k, m, m))
+			b := []any{"paths", "/inm", m, "parameters", Sel{"name": "more" + m, "in": "query"}}
+			p.e(form, "integer", at(b, "type")...)
+			p.e(form, 2, at(b, "minimum")...)
+			p.e(form, id, "paths", "/inm", m, "operationId")
+		})
+	}
 	add("merge.model-over-input", func(p *Prog) {
 		p.Input = baseInput()
 		k := p.next()
